@@ -288,8 +288,13 @@ Qed.
 
 (* the correspondence entry point on the example: whole tree and two start nodes *)
 Example ex_run17 :
-  match CaseC17.run17 (ex_root, [0; 1; 3]%Z) with L [L [L d0; L m0; L [_]]; L [_; _; L [_; _]]; L [_; _; L [_; _]]] => length d0 = 4 /\ length m0 = 4 | _ => False end.
-Proof. vm_compute. split; reflexivity. Qed.
+  match CaseC17.run17 (ex_root, [0; 1; 3]%Z,
+                       [(1%Z, MO false [84; 68]%Z TitleOff [] false true None None)]) with
+  | L [L [L [L d0; L m0; L [_]]; L [_; _; L [_; _]]; L [_; _; L [_; _]]]; L [L chart]] =>
+      length d0 = 4 /\ length m0 = 4 /\ length chart = 13
+  | _ => False
+  end.
+Proof. vm_compute. repeat split. Qed.
 
 (* ============================================ the code before the repairs *)
 (* D36: node_to_dot(add_self=True, unique_nodes=True) did not record the start
